@@ -28,6 +28,14 @@ CHECKS = {
             'The real index code (staleness flag set by add, _reindex, sorted (identifier, index) table searched by bisection, merged index with per-store offsets) runs with solver-integer flight identifiers stored in a netCDF4 model: sorted() and bisect fork on symbolic comparisons, so every insertion order of distinct identifiers is a path; on every path each added identifier returns exactly the trajectory added with it and an identifier never added returns nothing -- immediately after adds, after sync, after further adds, across append sessions, after reopening and in a merged store of two parts. Mixing identified and unidentified trajectories is refused in create and append sessions and the store stays consistent. Counterexamples replay on the real netCDF4 with the model\'s identifier values.',
             'netCDF4 model validated by the repository storage tests; 3 (thorough 4) identifiers per history; concrete tagged payloads',
             'proxy symbolic execution with solver-integer identifiers (z3 LIA) over a netCDF4 model', 'DESIGN.md#c08'),
+    'C09': ('model_checking',
+            'Merged stores on the real merge/_check_merge_arguments/_open_merged_store/_create_merged_store_index/_load_trajectory code over a netCDF4 model with real directory operations: for every explored layout (1..3 parts, thorough 4; 1-2 trajectories per part; file names whose given order differs from alphabetical order, unpadded numbered patterns; solver-integer identifiers in every relative order, or none) length = sum, the i-th trajectory = i-th of the concatenation at every seam, identifier lookup across parts, metadata lists the parts; invalid inputs (different field sets, mixed identification, shared file names, missing input, wrong extension, existing output) are refused with inputs left readable and the corrected retry succeeding. Arbitrary part sizes are covered by the C07 kernel (solver integers).',
+            'netCDF4 model validated by the repository storage tests; associated stores merged separately are not covered; counterexamples replay on the real netCDF4',
+            'proxy symbolic execution with solver-chosen layouts and solver-integer identifiers over a netCDF4 model', 'DESIGN.md#c09'),
+    'C10': ('fault_enumeration',
+            'Fault enumeration driven by solver variables: every kind of rejected addition (required value missing, different field sets, identifier missing/unexpected) at every position of an add sequence, in create, append and in-memory sessions of identified and unidentified stores, must leave length, every index, the next index returned and the reopened file equal to a list model that ignored the rejection; a failure injected at each file-system step of merge (mkdir, each rename, index file creation, metadata.json write) must leave every trajectory readable from its original file or the merged directory and never a metadata.json announcing missing parts; refused merges keep their inputs and can be retried after correcting the cause. Runs on the real store code over a netCDF4 model; counterexamples replay on the real library.',
+            'faults inside the netCDF/HDF5 library while a single file is written are outside; 2 (thorough 3) additions around the rejected one; 3 merge inputs',
+            'proxy execution with solver-chosen fault points over a netCDF4 model (exhaustive over the listed fault alphabet)', 'DESIGN.md#c10'),
     'C11': ('other',
             'Bounded symbolic verification over configurations: the 12 documented options are solver variables read through concretising forks, the real compute_emissions runs for every feasible option combination on symbolic data; every path must return (then switched-off species are proved absent/zero in trajectory and LTO parts) or raise a refusal naming the offending option value; any other exception is a counterexample configuration, replayed through the real Config.load + compute_emissions.',
             'same engine and stubs as C01; classification of an exception as a named refusal is by message text',
